@@ -294,6 +294,19 @@ pub fn run_scaled(ctx: &mut Ctx, n_model: usize, n_big: usize, exhaustive_subset
             go.iter().map(|i| (true, *i)).chain(gr.iter().map(|i| (false, *i))).collect();
         ctx.rng.shuffle(&mut order);
         let mut c = Case::new(&format!("after-larger-{}", n));
+        if n % 3 == 2 {
+            // … or the SAME configuration: a complete lossy round of other data first, then only the implicit reset of
+            // the dropped result (whatever `reset` sets up and the implicit reset does not must not matter either)
+            c.push(cfg.new_line("D"));
+            let o1 = gen_originals(&mut ctx.rng, cfg.k, cfg.sb);
+            if let Some(r1) = encode_impl(&cfg, &o1) {
+                let (go1, gr1, _) = gen_received(&mut ctx.rng, cfg.k, cfg.r);
+                for i in &go1 { c.push(format!("D addo {} {}", i, to_hex(&o1[*i]))); }
+                for j in &gr1 { c.push(format!("D addr {} {}", j, to_hex(&r1[*j]))); }
+                c.push("D decode".into());
+            }
+            ctx.count("history", "decoder-second-round-implicit-reset");
+        } else {
         c.push(bigger.new_line("D"));
         if ctx.rng.chance(2, 3) {
             // one successful round in the larger configuration: every original given
@@ -302,6 +315,7 @@ pub fn run_scaled(ctx: &mut Ctx, n_model: usize, n_big: usize, exhaustive_subset
             c.push("D decode".into());
         }
         c.push(format!("D reset {} {} {}", cfg.k, cfg.r, cfg.sb));
+        }
         for (is_o, i) in order.iter() {
             if *is_o { c.push(format!("D addo {} {}", i, to_hex(&originals[*i]))); } else { c.push(format!("D addr {} {}", i, to_hex(&recovery[*i]))); }
         }
